@@ -69,6 +69,11 @@ class World(object):
             counting._counting = True
             de.DiffRHS.jac = counting
         tol = 1e-3 if cfg["method"].startswith("RICH") else 1e-6
+        if cfg.get("prejac"):
+            # the caller inspects the finite-difference Jacobian of the wrapped right-hand side at the start point BEFORE building the system (e.g. to judge
+            # stiffness): these calls belong to the caller, the system's counters start after them
+            rhs.jac(dtype(T0), y0.copy())
+            self.rhs_mark = self.rhs_completed
         # 'against': the system is configured with the mirrored span and every integrate call names its target (the run goes against the configured direction)
         a = de.OdeSystem(rhs, y0=y0, t=(dtype(T0), dtype(2 * T0 - TF if cfg.get("against") else TF)), dt=dtype(cfg["dt0"]), rtol=dtype(tol), atol=dtype(tol), dense_output=bool(cfg["dense"]))
         a.equ_rhs.__dict__["_verif_world"] = self
@@ -245,6 +250,8 @@ def run(ctx):
                         "Jacobian requests are counted at DiffRHS.jac (the seam the integrators call)"]
     cfgs = [dict(method=m, dt0=dt0, jac=j, dense=d) for (m, dt0, j) in SETUPS for d in (False, True)]
     cfgs += [dict(method=m, dt0=dt0, jac=j, dense=False, against=True) for (m, dt0, j) in SETUPS]
+    cfgs += [dict(method=m, dt0=dt0, jac=j, dense=True, prejac=True) for (m, dt0, j) in SETUPS if j == "fd"] + [dict(method="RadauIIA5", dt0=0.25, jac="fd", dense=False, prejac=True),
+                                                                                                                  dict(method="RICH:ImplicitMidpoint:2", dt0=0.25, jac="fd", dense=False, prejac=True)]
     explore.bfs(ctx, cfgs, ops_fn, step, depth, section="bfs", horizon=600)
 
 
